@@ -242,7 +242,7 @@ def act_token(a):
 
 
 def line_of(sc):
-    kind = "with" if sc["kind"] == "awith" else sc["kind"]
+    kind = sc["kind"]
     env = sc["env"]
     probes = ",".join("%s~%s" % (cfg_token(p["cfg"]), act_token(p["out"])) for p in env["probes"]) or "-"
     envt = "%s@%s:%d.%d" % (probes, env["logbits"], env["logexc"][0], env["logexc"][1])
@@ -293,6 +293,11 @@ class Run:
         self.nest = 0
         self.live = True
         self.finalising = False
+        self.flip = False
+
+    def toggle(self):
+        self.flip = not self.flip
+        return self.flip
 
     def obj(self, cls, ident):
         key = (cls, ident)
@@ -419,8 +424,11 @@ def make_body(sc, run):
     return body
 
 
-DEPTH_NAMES = {"catch_wrapper": 0, "asend": 0, "_with_block": 0, "__aexit__": 0, "_outcome": 1, "_call_depth1": 1,
+# depth (as added by `Catcher.__exit__` to the logger's depth option) at which a frame sits, seen from
+# the caller of `__exit__`; under `async with` the caller of `__exit__` is `__aexit__`
+DEPTH_NAMES = {"catch_wrapper": 0, "asend": 0, "_with_block": 0, "_outcome": 1, "_call_depth1": 1,
                "_drv_depth1": 2, "_call_depth2": 2}
+DEPTH_NAMES_AWITH = {"__aexit__": 0, "_with_block": 1, "_outcome": 2, "_drv_depth1": 3}
 
 
 def new_logger(run):
@@ -437,7 +445,8 @@ def new_logger(run):
         rec = msg.record
         ex = rec["exception"]
         c = run.canon(ex.value) if ex is not None else (998, 0)
-        run.trace.append(("L", rec["level"].no, c[0], c[1], DEPTH_NAMES.get(rec["function"], 9)))
+        names = DEPTH_NAMES_AWITH if run.sc["kind"] == "awith" else DEPTH_NAMES
+        run.trace.append(("L", rec["level"].no, c[0], c[1], names.get(rec["function"], 9)))
         if rec["message"] != "M%d" % rec["level"].no:
             run.trace.append(("BADMSG", rec["message"]))
         if ex is None or ex.type is not type(ex.value) or ex.traceback is None:
@@ -507,7 +516,9 @@ def _outcome(run, f, *a, closing=False, agen=False):
 def _drv_depth1(run, obj, op, kind):
     """the frame that calls into the (wrapped) object: depth 1 as seen from `Catcher.__exit__`"""
     if kind == "agen":
-        if op[0] == "s":
+        if op[0] == "s" and op[1] == 0 and run.toggle():
+            aw = obj.__anext__()            # what `async for` calls; must behave as asend(None)
+        elif op[0] == "s":
             aw = obj.asend(pyval(op[1]))
         elif op[0] == "t":
             aw = obj.athrow(run.obj(op[1], op[2]))
@@ -651,7 +662,7 @@ def execute(sc, wrapped):
 
 
 # ----------------------------------------------------------------------------- the property, executable
-def spec_escape(sc, e, from_decorator):
+def spec_escape(sc, e, depth):
     """An exception `e` = (cls, id) raised by the wrapped code itself escapes it (guard flag clear).
     Returns (('ret', default) | ('raise', exc), expected events) for the stack of catchers."""
     env = sc["env"]
@@ -662,7 +673,7 @@ def spec_escape(sc, e, from_decorator):
         m, x = bits_of(c["exc"]), bits_of(c["excl"])
         if cur[0] >= NC or m[cur[0]] != "1" or x[cur[0]] == "1":
             continue
-        events.append(("L", c["level"][1], cur[0], cur[1], 1 if from_decorator else 0))
+        events.append(("L", c["level"][1], cur[0], cur[1], depth))
         for p in env["probes"]:
             # a catch()-wrapped callable invoked while the record is produced must see its own
             # exception propagate (no recursive catching) and must not produce records
@@ -680,6 +691,12 @@ def spec_escape(sc, e, from_decorator):
             continue
         return ("ret", c["default"]), events
     return ("raise", cur), events
+
+
+# the record must identify: the frame that called / resumed the decorated callable (depth 1 from the
+# wrapper), the frame containing the `with` block (depth 0), the frame containing the `async with`
+# block (depth 1: `__aexit__`'s own frame lies between)
+SPEC_DEPTH = {"fn": 1, "gen": 1, "coro": 1, "agen": 1, "with": 0, "awith": 1}
 
 
 def suppressed_result(kind, default, op):
@@ -738,7 +755,7 @@ def judge(sc, W, U):
         # first escaping step
         if own and ru[i][0] == "e":
             e = ru[i][1:]
-            (what, val), events = spec_escape(sc, e, kind not in ("with", "awith"))
+            (what, val), events = spec_escape(sc, e, SPEC_DEPTH[kind])
             exp_res = suppressed_result(kind, val, op) if what == "ret" else ("e",) + tuple(val)
             exp_tok = toks(events)
             if rw[i] != exp_res or step_events != exp_tok:
